@@ -4,6 +4,7 @@ CONSTANTS OFFBYONE = FALSE
   Objs = {1, 2, 3}
   MaxRevs = 2
   Styles = {"one", "each", "runs"}
+  ZeroFree = TRUE
   MaxPieces = 4
   STRICT_LENGTH = TRUE
 CONSTRAINT PiecesBound
